@@ -311,7 +311,7 @@ def _shared_descriptors(ctx, prog, M):
     ctx.rule("R10.shared", "no Choice object is shared between choice groups that have different successors")
     xm = prog.modules.get("pptx.oxml.xmlchemy")
     ch = xm.classes.get("Choice") if xm else None
-    pm = ch.methods.get("populate_class_members") if ch else None
+    pm = ch.methods.get(getattr(M, "choice_populator", "populate_class_members")) if ch else None
     keeps = pm is not None and any(isinstance(n, ast.Assign) and dotted(n.targets[0]) == "self._successors" for n in ast.walk(pm.node))
     users = {}   # (module name, name) -> [(class, prop, successors, node)]
     ngroups = 0
